@@ -23,6 +23,8 @@ IDX=0
 for d in /verif/seeded/*/; do
   n=$(basename $d); [ -n "$FILTER" ] && [ "$FILTER" != . ] && [[ "$n" != *$FILTER* ]] && continue
   IDX=$((IDX+1)); [ $(( IDX % PN )) -ne $PK ] && continue
+  # SKIP_FILE: results already at hand (lines of an earlier run, copied through unchanged)
+  if [ -n "${SKIP_FILE:-}" ] && grep -q "^$n	" "$SKIP_FILE"; then grep "^$n	" "$SKIP_FILE" | head -1 >> $OUT; continue; fi
   p=$(jq -r .property $d/meta.json)
   # a change that only the thorough tier can reach says so in its meta.json ("tier": "thorough")
   t=$(jq -r '.tier // empty' $d/meta.json); [ -z "$t" ] && t=$TIER
@@ -32,7 +34,11 @@ for d in /verif/seeded/*/; do
   else
      git -C $R apply $d/patch.diff
   fi
-  (cd /verif && ./check $p --tier $t > /tmp/seeded_$n.log 2>&1); rc=$?
+  # SCREEN=<shard list>: look with a few of the sixteen shards first; only a change that they do not catch
+  # costs a full run (a screening run that finds nothing proves nothing and is not reported)
+  rc=0
+  if [ -n "${SCREEN:-}" ] && [ "$t" = quick ]; then (cd /verif && VERIF_ONLY_SHARDS=$SCREEN ./check $p --tier $t > /tmp/seeded_$n.log 2>&1); rc=$?; fi
+  if [ $rc -ne 1 ]; then (cd /verif && ./check $p --tier $t > /tmp/seeded_$n.log 2>&1); rc=$?; fi
   git -C $R checkout -- . ; git -C $R clean -fdq -- packages examples; find $R -name "*.orig" -newer $d/meta.json -delete 2>/dev/null
   sig=$(grep -m1 "signature" /tmp/seeded_$n.log | sed 's/^ *signature //' | cut -d: -f1)
   printf "%s\t%s\t%s\tyes\t%s\t%s\n" $n $p $t $rc "$sig" >> $OUT
